@@ -287,6 +287,8 @@ def seeds():
         st.sampled_from([16, 32, 64]).flatmap(lambda n: st.binary(min_size=n, max_size=n)),
         st.binary(min_size=16, max_size=64),
         st.integers(16, 64).flatmap(material),
+        gen.lookalike_keys32(),  # seeds whose bytes read as text (hex digits, whitespace at the ends)
+        st.integers(14, 62).flatmap(lambda n: st.binary(min_size=n, max_size=n)).map(lambda b: b" " + b + b"\n"),
     ).map(hx)
 
 
